@@ -55,6 +55,7 @@ PROPS = {
                lambda c: sched.sched_pair(c, (sched.FB,)),
                lambda c: sched.key_rebind(c, (sched.FB,)), interp.fb_epoch,
                lambda c: sched.sched_span(c, (sched.FB,)), sched.step_bound_fb,
+               integrator.wa_forward,
                integrator.buf_rules, integrator.last_row],
         decided=['the state at an epoch inside a sampling interval is predicted with the elapsed '
                  'fraction of the pending increment',
@@ -120,7 +121,8 @@ PROPS = {
         undecided=['bit-identity of floating-point results across chunkings']),
     'C13': dict(
         rules=[integrator.alt_freeze, integrator.es_copy, integrator.es_2drows,
-               meas.meas_shape, meas.meas_noise, kernel.row_rec, errmodel.em_2d],
+               meas.meas_shape, meas.meas_noise, kernel.row_rec, errmodel.em_2d,
+               integrator.wa_forward],
         decided=['the 2-row noise covariance is the north/east block of the 3-row one',
                  'every writer of the velocity carrier stores vertical velocity zero and altitude '
                  'is copied (constructor, kernel, set_pva)',
@@ -129,8 +131,10 @@ PROPS = {
                  'sd in both filters)', 'position / NED-velocity models return 2 rows'],
         undecided=['nothing further: the statement is structural']),
     'C07': dict(
-        rules=[kal.kal_rules, kal.use_after_overwrite],
-        decided=['gain == P H^T S^-1 with S == H P H^T + R and state update == x + K (z - H x) '
+        rules=[kal.kal_rules, kal.use_after_overwrite, lambda c: purity.pur_arg(c, ('kalman',))],
+        decided=['no public function of kalman writes into an argument (effect analysis: direct '
+                 'and augmented assignment, views, callees, overwrite flags)',
+                 'gain == P H^T S^-1 with S == H P H^T + R and state update == x + K (z - H x) '
                  '(non-commutative normal form, all inputs)',
                  'covariance is the Joseph form, each summand a congruence of P or R (symmetric '
                  'PSD by construction)',
@@ -140,7 +144,7 @@ PROPS = {
                  'dependent corruption for single-row / single-column shapes)'],
         undecided=['floating-point equality with the information form', 'order independence '
                    'and "never larger than the prior" as numerical facts (they follow '
-                   'algebraically)', 'inputs not modified: decided under C19 (PUR-ARG)']),
+                   'algebraically)']),
     'C08': dict(
         rules=[kal.vl_rules, kal.q_psd, layout.assembly,
                lambda c: dtype.dtype_inherit(c, ('kalman', 'filters')),
@@ -163,7 +167,7 @@ PROPS = {
                  'every random draw comes from check_random_state(<parameter>); no hidden '
                  'non-determinism source', 'documented column sets of returned/consumed tables'],
         undecided=['bit-identical repeat results (needs library determinism)',
-                   'agreement between scalar/stacked/list/array/table forms of one input'],
+                   'agreement of the list and plain-array forms with the others (the scalar / stacked and the Series / DataFrame forms are decided: FORM-AGREE)'],
         assumptions=['pandas >= 3 copy-on-write semantics (measured in this sandbox); calls '
                      'listed under assumed_read_only_calls do not write their arguments']),
     'C18': dict(
@@ -212,7 +216,7 @@ PROPS = {
                lambda c: sched.sched_span(c, (sched.FF,)), lambda c: sched.avg_rate(c, (sched.FF,)),
                lambda c: layout.init_state(c, (sched.FF,)), layout.call_roles,
                kal.kal_rules, kal.use_after_overwrite, kal.vl_rules, smmodel.sm_model,
-               layout.traj_roles,
+               layout.traj_roles, integrator.wa_forward,
                lambda c: interp.interp_rules(c, ('feedforward',))],
         decided=['every measurement sample is fused exactly once (epoch list de-duplicated, cursor pairing, no epoch overtaken: the C10 rules on the feedforward loop)',
                  'the epoch state is the interpolation between the bracketing rows with the elapsed fraction; propagation matrices at the mid-point state',
@@ -242,7 +246,8 @@ PROPS = {
                lambda c: sched.sched_progress(c, (sched.FB, sched.FF)),
                layout.ff_comp, layout.sd_transform, errmodel.es_first, errmodel.es_inv,
                integrator.buf_rules, integrator.carrier, integrator.carrier_sync,
-               integrator.predict_eff, kal.kal_rules, kal.use_after_overwrite],
+               integrator.predict_eff, kal.kal_rules, kal.use_after_overwrite,
+               integrator.wa_forward],
         decided=['both filters fuse the same set of measurement samples: same epoch-list stages (merge, de-duplication, clip to [start, end], sentinel) in both loops',
                  'both filters reset both sensor models before any use (re-run reproducibility)',
                  'feedback effects (set_pva, update_estimates, correct) only inside the '
@@ -293,7 +298,7 @@ PROPS = {
     'C04': dict(
         rules=[geo.geo_curv, geo.parity, errmodel.em_linear, errmodel.prop_consist, errmodel.em_2d, errmodel.em_units,
                errmodel.em_frame, errmodel.em_gravgrad, errmodel.es_first, kernel.ker_consist,
-               kernel.sib_grav, geo.wgs_const],
+               kernel.sib_grav, geo.wgs_const, integrator.wa_forward],
         decided=['propagate_errors: one-step map consistent with x\' = F x + B_gyro e_g + B_accel e_a, initial error through transform_to_internal of the first row, output through transform_to_output',
                  'F, B_gyro, B_accel equal the symbolic linearisation of the navigation equations '
                  '(assembled from earth.*) in the error coordinates that correct_pva implements: '
